@@ -126,6 +126,54 @@ func validFile(r *vh.Rand, format string, finalNL bool) ([]byte, string) {
 	}
 }
 
+// truncCase: a well-formed file (final newline) followed by ONE more well-formed entry cut
+// short: inside its header line, right after it, or inside its body (uripost, raw: body
+// non-empty, so every cut leaves the entry incomplete); inside a header line before the
+// closing bracket (uri); inside a JSON object (json, one object per line).
+// The specification decides these cases itself: the entries of the well-formed part are
+// delivered, then the run must end with an error.
+func truncCase(r *vh.Rand, fm string) string {
+	var good []byte
+	var toks string
+	var extra []byte
+	lo, hi := 0, 0 // cut point range [lo, hi]
+	switch fm {
+	case "uripost", "raw":
+		good, toks = validFile(r, fm, true)
+		for {
+			_, one := a07ammo.GenOneSized(r, fm == "uripost")
+			extra = one.Bytes
+			if one.BodyLen > 0 {
+				lo, hi = one.LeadLen+1, len(extra)-1
+				break
+			}
+		}
+	case "uri":
+		good, toks = validFile(r, fm, true)
+		for {
+			one := a07ammo.GenOneHeaderLine(r)
+			extra = one.Bytes
+			lo, hi = one.LeadLen+1, one.CloseIdx
+			if hi >= lo {
+				break
+			}
+		}
+	default:
+		good, toks, extra = a07ammo.GenJSONStream(r)
+		lo, hi = 1, len(extra)-1
+	}
+	for tries := 0; tries < 100; tries++ {
+		c := r.Range(lo, hi)
+		last := extra[c-1]
+		if fm == "uri" && (last == ']' || last == ' ' || last == '\t' || last == '\r' || last == '\v' || last == '\f') {
+			continue
+		}
+		file := append(append([]byte(nil), good...), extra[:c]...)
+		return fmt.Sprintf("trunc %s %s %d %s", fm, vh.Hex(file), len(good), toks)
+	}
+	return fmt.Sprintf("trunc %s %s %d %s", fm, vh.Hex(append(append([]byte(nil), good...), extra[:lo]...)), len(good), toks)
+}
+
 var shootPool = []string{"a", "b", "c", "a(2)", "a(2,10)", "b( 3 , 5 )", "sleep(10)", "sleep(0)", "sleep", "sleepy(2)", "a()", "a(,7)", "a(0)", "a(-1)", "c(1,-5)",
 	"a(", "a)", ")a(", "a(1))", "a((1)", "a(1,2,3)", "(3)", "a(x)", "a(1,y)", "zz", "zz(1)", "", " a ( 2 ) ", "a(99999999999999999999)", "a(1)b", "ü(1)", "a(+2)", "a(1.5)", "A"}
 
@@ -163,6 +211,7 @@ func gen(r *vh.Rand, tier string) []string {
 				file := append(append([]byte(nil), good...), tail...)
 				out = append(out, wrapHostile(fmt.Sprintf("pfx %s %s %d %s", fm, vh.Hex(file), len(good), toks), file))
 			}
+			out = append(out, truncCase(r, fm))
 			// pure random bytes
 			rb := randomBytes(r)
 			out = append(out, wrapHostile(fmt.Sprintf("ammo %s %s", fm, vh.Hex(rb)), rb))
